@@ -323,3 +323,173 @@ pub fn instantiate(template: &'static str, rng: &mut Rng) -> Program {
     }
     p
 }
+
+// ------------------------------------------------------------------------------------------------------------------
+// Seeded random multi-file programs (used by C15): entities form a DAG by construction, their placement into files
+// and modules is random, so cross-file forward references, aliases with attributes, deprecated entities used from
+// several files, doc links and per-file preprocessor symbols all occur together.
+// ------------------------------------------------------------------------------------------------------------------
+
+#[derive(Clone, Debug, PartialEq)]
+enum Kind {
+    Struct,
+    Enum,
+    Alias,
+    Interface,
+    Custom,
+}
+
+struct Ent {
+    kind: Kind,
+    name: String,
+    module: usize,
+    file: usize,
+    deprecated: bool,
+}
+
+/// `inject`: 0 none, 1 containment cycle, 2 redefinition, 3 unresolved type.
+pub fn random_program(rng: &mut Rng, inject: u8) -> Program {
+    let u = format!("{}", (b'A' + rng.below(26) as u8) as char);
+    let modules: Vec<String> = vec![format!("Rp{u}"), format!("Rp{u}::Sub"), format!("Rq{u}"), format!("Rp{u}::Sub::Deep")];
+    let n_files = 2 + rng.usize_below(3);
+    let file_module: Vec<usize> = (0..n_files).map(|_| rng.usize_below(modules.len())).collect();
+    let n_ents = 4 + rng.usize_below(9);
+    let mut ents: Vec<Ent> = Vec::new();
+    let mut bodies: Vec<String> = Vec::new();
+    let prim = ["int32", "string", "bool", "float64", "varuint62", "uint8"];
+    for i in 0..n_ents {
+        let file = rng.usize_below(n_files);
+        let module = file_module[file];
+        let kind = match rng.below(10) {
+            0..=3 => Kind::Struct,
+            4 | 5 => Kind::Enum,
+            6 | 7 => Kind::Alias,
+            8 => Kind::Interface,
+            _ => Kind::Custom,
+        };
+        let name = format!("{}{}", match kind { Kind::Struct => "S", Kind::Enum => "E", Kind::Alias => "A", Kind::Interface => "I", Kind::Custom => "C" }, i);
+        let deprecated = kind != Kind::Alias && rng.chance(1, 6);
+        // a type expression that refers to an EARLIER entity (never an interface) or a primitive
+        let earlier: Vec<usize> = (0..ents.len()).filter(|j| ents[*j].kind != Kind::Interface).collect();
+        let mut type_expr = |rng: &mut Rng, ents: &Vec<Ent>| -> String {
+            let base = if !earlier.is_empty() && rng.chance(2, 3) {
+                let j = *rng.pick(&earlier);
+                // qualified from the global scope, or relative when it happens to be in the same module
+                if ents[j].module == module && rng.chance(1, 2) { ents[j].name.clone() } else { format!("{}::{}", modules[ents[j].module], ents[j].name) }
+            } else {
+                (*rng.pick(&prim)).to_owned()
+            };
+            match rng.below(6) {
+                0 => format!("Sequence<{base}>"),
+                1 => format!("Dictionary<string, {base}>"),
+                2 => format!("Sequence<{base}?>"),
+                _ => base,
+            }
+        };
+        let mut doc = String::new();
+        if rng.chance(1, 4) && !ents.is_empty() {
+            let j = rng.usize_below(ents.len());
+            if rng.chance(1, 5) {
+                doc = format!("/// Relates to {{@link {}::Nowhere{i}}}.\n", modules[ents[j].module]);
+            } else {
+                doc = format!("/// Relates to {{@link {}::{}}}.\n", modules[ents[j].module], ents[j].name);
+            }
+        }
+        let attr = if deprecated { "[deprecated]\n" } else { "" };
+        let body = match kind {
+            Kind::Struct => {
+                let nf = 1 + rng.usize_below(3);
+                let mut fields = Vec::new();
+                for k in 0..nf {
+                    if rng.chance(1, 4) {
+                        fields.push(format!("    tag({}) f{k}: {}?", k + 1, (*rng.pick(&prim))));
+                    } else {
+                        let t = type_expr(rng, &ents);
+                        fields.push(format!("    f{k}: {t}"));
+                    }
+                }
+                format!("{doc}{attr}struct {name} {{\n{}\n}}\n", fields.join("\n"))
+            }
+            Kind::Enum => format!("{doc}{attr}enum {name} : int32 {{ {name}X = {}, {name}Y, {name}Z = {} }}\n", rng.below(5), 10 + rng.below(90)),
+            Kind::Alias => {
+                let t = type_expr(rng, &ents);
+                if rng.chance(1, 2) {
+                    format!("{doc}typealias {name} = [cs::type(\"T{i}\")] {t}\n")
+                } else {
+                    format!("{doc}typealias {name} = {t}\n")
+                }
+            }
+            Kind::Interface => {
+                let bases: Vec<String> = ents.iter().filter(|e| e.kind == Kind::Interface).filter(|_| rng.chance(1, 2)).map(|e| format!("{}::{}", modules[e.module], e.name)).collect();
+                let inherit = if bases.is_empty() { String::new() } else { format!(" : {}", bases.join(", ")) };
+                let t = type_expr(rng, &ents);
+                format!("{doc}{attr}interface {name}{inherit} {{\n    op{i}(p: {t}) -> {}\n}}\n", (*rng.pick(&prim)))
+            }
+            Kind::Custom => format!("{doc}{attr}custom {name}\n"),
+        };
+        ents.push(Ent { kind, name, module, file, deprecated });
+        bodies.push(body);
+    }
+    // injected errors
+    let mut extra: Vec<(usize, String)> = Vec::new();
+    let structs: Vec<usize> = (0..ents.len()).filter(|i| ents[*i].kind == Kind::Struct).collect();
+    match inject {
+        1 if structs.len() >= 1 => {
+            // two new structs in different files that contain each other, plus a user of one of them elsewhere
+            let (fa, fb, fc) = (rng.usize_below(n_files), rng.usize_below(n_files), rng.usize_below(n_files));
+            extra.push((fa, format!("struct CycA {{ b: {}::CycB }}\n", modules[file_module[fb]])));
+            extra.push((fb, format!("struct CycB {{ a: Sequence<{}::CycA> }}\n", modules[file_module[fa]])));
+            extra.push((fc, format!("struct CycUser {{ a: {}::CycA }}\n", modules[file_module[fa]])));
+        }
+        2 if !ents.is_empty() => {
+            let j = rng.usize_below(ents.len());
+            // the same name again in another file of the same module (if any), else in the same file
+            let f2 = (0..n_files).find(|f| file_module[*f] == ents[j].module && *f != ents[j].file).unwrap_or(ents[j].file);
+            extra.push((f2, format!("custom {}\n", ents[j].name)));
+            if ents.len() > 1 {
+                let k = (j + 1) % ents.len();
+                extra.push((ents[k].file, format!("custom {}\n", ents[k].name)));
+            }
+        }
+        3 => {
+            let f = rng.usize_below(n_files);
+            extra.push((f, format!("struct Dangling {{ x: {}::DoesNotExist, y: AlsoMissing }}\n", modules[rng.usize_below(modules.len())])));
+        }
+        _ => {}
+    }
+    let _ = ents.iter().filter(|e| e.deprecated).count();
+    // files
+    let mut files = Vec::new();
+    for f in 0..n_files {
+        let mut text = String::new();
+        if rng.chance(1, 5) {
+            text.push_str("[[allow(Deprecated)]]\n");
+        }
+        if rng.chance(1, 4) {
+            text.push_str(&format!("#define SYM{}\n", rng.below(3)));
+        }
+        text.push_str(&format!("module {}\n\n", modules[file_module[f]]));
+        for (i, e) in ents.iter().enumerate() {
+            if e.file == f {
+                text.push_str(&bodies[i]);
+                text.push('\n');
+            }
+        }
+        for (ef, body) in &extra {
+            if *ef == f {
+                text.push_str(body);
+                text.push('\n');
+            }
+        }
+        // a definition guarded by a symbol that only OTHER files may define: must never appear
+        if rng.chance(1, 3) {
+            let k = rng.below(3);
+            text.push_str(&format!("#if SYM{k}\nstruct Guarded{f}By{k} {{ g: bool }}\n#endif\n"));
+        }
+        if rng.chance(1, 6) {
+            text.push_str(&format!("#undef SYM{}\n", rng.below(3)));
+        }
+        files.push(SrcFile { name: format!("r{f}.slice"), text });
+    }
+    Program { template: "random", files, class: if inject == 0 { Class::Clean } else { Class::Error }, codes: vec![], lints: vec![], order_sensitive_known: false }
+}
